@@ -74,7 +74,12 @@ def evaluate(sid, tier, runs, all_props):
     r = sh(f"git -C /repo worktree add --detach {wt} HEAD")
     if r.returncode:
         raise SystemExit(r.stderr)
-    if sh(f"git -C {wt} apply --check {os.path.join(d, 'patch.diff')}").returncode:
+    ported = os.path.join(d, "patch_head.diff")  # the same change re-expressed against a later /repo HEAD
+    patch_file = os.path.join(d, "patch.diff")
+    if os.path.exists(ported) and sh(f"git -C {wt} apply --check {ported}").returncode == 0:
+        patch_file = ported
+        meta["patch_used"] = "patch_head.diff (ported by hand: the original no longer applies after later fix: commits)"
+    if sh(f"git -C {wt} apply --check {patch_file}").returncode:
         sh(f"git -C /repo worktree remove --force {wt}")
         r = sh(f"git -C /repo worktree add --detach {wt} {base}")
         if r.returncode:
@@ -87,7 +92,7 @@ def evaluate(sid, tier, runs, all_props):
         demo = os.path.join(d, "demo.py")
         rc0, out0 = run_demo(wt, demo)
         res["demo_without_patch_exit"] = rc0
-        a = sh(f"git -C {wt} apply {os.path.join(d, 'patch.diff')}")
+        a = sh(f"git -C {wt} apply {patch_file}")
         res["patch_applies"] = a.returncode == 0
         if a.returncode:
             res["apply_error"] = a.stderr[-400:]
@@ -101,18 +106,40 @@ def evaluate(sid, tier, runs, all_props):
         props = [meta["property"]] + ([p for p in ("C05", "C11", "C12", "C13", "C16") if p != meta["property"]]
                                       if all_props else [])
         det = {}
-        for prop in props:
+
+        def run_check(prop):
             env = dict(os.environ, VERIF_REPO=wt, VERIF_EVIDENCE_DIR="/tmp/dsim_seeded_out",
                        VERIF_REPLAY_DIR="/tmp/dsim_seeded_out")
-            cmd = [os.path.join(VERIF, "check"), "run", prop, "--tier", tier]
-            if runs:
-                cmd += ["--runs", str(runs)]
-            t0 = time.time()
+            cmd = [os.path.join(VERIF, "check"), "run", prop, "--tier", tier] + (["--runs", str(runs)] if runs else [])
             c = subprocess.run(cmd, capture_output=True, text=True, env=env, cwd=VERIF)
-            sigs = [l.split("signature=")[1].split()[0] for l in c.stdout.splitlines()
-                    if "signature=" in l and "KNOWN" not in l]
-            det[prop] = {"exit": c.returncode, "status": {0: "missed", 1: "caught", 2: "harness-error"}.get(c.returncode),
-                         "signatures": sigs[:6], "wall_s": round(time.time() - t0, 1), "cmd": " ".join(cmd[1:])}
+            try:
+                ev = json.load(open(f"/tmp/dsim_seeded_out/{prop}.json"))
+                allsigs = [v["signature"] for v in ev["coverage"]["violation_signatures"]]
+            except Exception:
+                allsigs = []
+            return c, allsigs
+
+        baseline = {}
+        if meta["evaluated_on"] != "HEAD":
+            # the base commit has defects of its own that were repaired later: only signatures that the
+            # patched tree shows IN ADDITION to the unpatched base tree count as detecting this change
+            sh(f"git -C {wt} checkout -- .")
+            for prop in props:
+                baseline[prop] = run_check(prop)[1]
+            sh(f"git -C {wt} apply {patch_file}")
+        for prop in props:
+            cmd = ["run", prop, "--tier", tier] + (["--runs", str(runs)] if runs else [])
+            t0 = time.time()
+            c, allsigs = run_check(prop)
+            base = set(baseline.get(prop, []))
+            sigs = [x for x in allsigs if x not in base]
+            status = {0: "missed", 1: "caught", 2: "harness-error"}.get(c.returncode)
+            if c.returncode == 1 and not sigs:
+                status = "missed"  # only the base tree's own (since repaired) defects fired
+            det[prop] = {"exit": c.returncode, "status": status,
+                         "signatures": sigs[:6], "wall_s": round(time.time() - t0, 1), "cmd": " ".join(cmd)}
+            if base:
+                det[prop]["base_tree_signatures_ignored"] = sorted(base)[:6]
             if c.returncode == 2:
                 det[prop]["stderr"] = c.stderr[-800:]
         res["detection"] = det
